@@ -420,6 +420,15 @@ def run_case(case):
             # constructing the attribute objects is part of composing a message
             out.fail("compose", "compose:raises:%s" % type(e).__name__, {"error": repr(e)[:300], "kinds": kinds})
             return out
+        if case.get("log"):
+            # applications and the layers' own loggers print messages between composing and sending: looking at a message does
+            # not change it
+            try:
+                str(attrs)
+                out.label("printed_before_serialising")
+            except Exception as e:
+                out.fail("compose", "compose:str_raises:%s" % type(e).__name__, {"error": repr(e)[:300], "kinds": kinds})
+                return out
         try:
             data = conv.message_to_protobytes(attrs)
         except Exception as e:
@@ -427,6 +436,8 @@ def run_case(case):
             return out
         try:
             back = conv.protobytes_to_message(data)
+            if case.get("log"):
+                str(back)
             got = extract_message(back)
         except Exception as e:
             out.fail("parse", "parse:raises:%s:%s" % (type(e).__name__, where(e)), {"error": repr(e)[:300], "kinds": kinds})
@@ -465,6 +476,9 @@ def run_case(case):
         data1 = pm.SerializeToString()
         try:
             attrs = conv.protobytes_to_message(data1)
+            if case.get("log"):
+                str(attrs)
+                out.label("printed_before_reserialising")
             data2 = conv.message_to_protobytes(attrs)
         except Exception as e:
             out.fail("peer", "peer:raises:%s:%s" % (type(e).__name__, where(e)), {"error": repr(e)[:300], "kinds": kinds})
@@ -852,6 +866,8 @@ def case_strategy(sub):
         case = {"sub": sub, "spec": spec}
         if draw(st.integers(0, 5)) == 0:
             case["after_failures"] = [draw(st.integers(1, 5)), draw(st.integers(1, 3))]
+        if draw(st.booleans()):
+            case["log"] = True
         if sub == "peer":
             omit = []
             for kind, info in KINDS.items():
